@@ -297,3 +297,79 @@ def run_c17(tier, seed, replay):
                          {"samples": samples, "scenarios": {"%s/%s" % k: v for k, v in hist.items()},
                           "rule": "seeded runs of the hctl-model-checker binary built from the working tree: model as aeon / bnet / sbml, formula files with comment / blank / indented lines, every print option, optional -o and -e archives, and failure scenarios; stdout lines consumed path-wise by TLC against the state machine of spec/Cli.tla (spec/Trace_Cli.tla); a run without an accepting state is rejected"},
                          ASSUME_CLI, lambda it, failed: {"property": "C17", "failed_judgements": failed, "recorded": byid[it["id"]]})
+
+
+# ----------------------------------------------------------------------------- C19
+def conv_networks(rng, count):
+    """aeon networks with implicit and explicit uninterpreted functions of arity <= 3, including
+    variable names that end in _0 / _1 / _ (plausible in real models)."""
+    out = []
+    name_pools = [["a", "b", "c"], ["b", "b_1", "b_0"], ["x_", "x", "y"], ["v1", "v1_0", "v1_1"], ["g", "g_", "g_1"], ["n_0", "n_1", "m"]]
+    for i in range(count):
+        names = rng.choice(name_pools)[:rng.choice([2, 3, 3])]
+        out.append(gen.rand_network(rng, len(names), max_pbits=12, names=names, p_implicit=0.5, p_param=0.6))
+    out += ["b_1 -> b\nb_0 -> b_1\nb -> b_0\n", "a -> b\n$b: f(a)\n$a: k\n", "a -?? a\n$a: f(a, a) | !g(a)\nb -> a\n",
+            "a -> c\nb -| c\nc -? a\n$b: true\n", "a -> b\n$b: f(a) & f(!a)\n$a: a\na -?? a\n"]
+    return out
+
+
+def run_c19(tier, seed, replay):
+    t0 = time.time()
+    common.build(need_bins=True)
+    binp = os.path.join(common.BIN_DIR, "release", "convert-aeon-to-bnet")
+    wd = common.workdir("C19-%s" % tier)
+    rng = random.Random(seed * 7919 + 19)
+    if replay:
+        models = [e["model"] for e in json.load(open(replay))["items"]]
+    else:
+        models = conv_networks(rng, 400 if tier == "thorough" else 60)
+    cand = [{"id": "c%d" % i, "model": m, "format": "aeon"} for i, m in enumerate(models)]
+    # only inputs the aeon parser accepts (the unit set is irrelevant for the converter)
+    okset = set()
+    for c in cand:
+        p = os.path.join(wd, c["id"] + ".aeon")
+        open(p, "w").write(c["model"])
+        try:
+            c["net_in"] = json.loads(common.harness(["describe", "aeon", p]))
+            okset.add(c["id"])
+        except ToolError:
+            pass
+    events, items = [], []
+    for c in cand:
+        if c["id"] not in okset:
+            continue
+        n_in = c["net_in"]
+        bits = sum(2 ** p_["arity"] for p_ in n_in["params"]) + sum(2 ** len(f["regs"]) for f in n_in["fns"] if f["op"] == "implicit")
+        if bits > 12 or len(n_in["vars"]) > 3 or any(p_["arity"] > 3 for p_ in n_in["params"]):
+            continue
+        pr = subprocess.run([binp], input=c["model"], capture_output=True, text=True, timeout=120)
+        ev = {"id": c["id"], "kinds": ["c19"], "model": c["model"], "net_in": n_in, "exit": pr.returncode,
+              "panicked": "panicked" in pr.stderr, "stderr": pr.stderr[-300:], "stdout": pr.stdout[-2000:],
+              "reload_ok": False, "net_out": n_in}
+        if pr.returncode == 0:
+            op = os.path.join(wd, c["id"] + ".bnet")
+            open(op, "w").write(pr.stdout)
+            try:
+                ev["net_out"] = json.loads(common.harness(["describe", "bnet", op]))
+                ev["reload_ok"] = True
+            except ToolError as e:
+                ev["reload_error"] = str(e)[:300]
+        events.append(ev)
+        items.append({"id": c["id"], "kinds": ["c19"], "text": c["model"], "model": c["model"]})
+    docs = [{"events": ch} for ch in common.chunks(events, 20)]
+    verdicts, stats = common.judge_events("Trace_Conv.tla", "Trace_Conv.cfg", docs, wd)
+    # mode A: the algorithm model reaches exactly all functions (arity 0..3)
+    out, rc, wall = common.run_tlc("MC_Converter.tla", "MC_Converter.cfg", os.path.join(wd, "meta-mc"))
+    if "No error has been found" not in out:
+        raise ToolError("MC_Converter failed:\n" + out[-2000:])
+    g, d = common.tlc_counts(out)
+    stats["states"] += g
+    stats["distinct"] += d
+    byid = {e["id"]: e for e in events}
+    import runner
+    samples = [{"input": e["model"], "output": e["stdout"], "exit": e["exit"]} for e in events[:3]]
+    return runner.report("C19", tier, seed, t0, items, verdicts, ["c19"], stats,
+                         {"samples": samples, "mode_A": "MC_Converter: Explode reaches every function exactly once for arity 0..3",
+                          "rule": "seeded aeon networks (<= 3 variables, arity <= 3, implicit and explicit unknown functions nested in expressions and shared between targets, names ending in _0/_1/_) piped through the convert-aeon-to-bnet binary; input and re-loaded output as data; TLC computes for each target the set of truth tables reached over all valuations of the fresh constants and compares it with the set of instantiations of the input function (spec/Converter.tla Related)"},
+                         ASSUME_CLI[1:2] + ["the bnet parser of biodivine-lib-param-bn re-loads the output"],
+                         lambda it, failed: {"property": "C19", "failed_judgements": failed, "items": [it], "recorded": byid[it["id"]]})
